@@ -60,9 +60,9 @@ def cmdP (withFactor : Bool) (n : Nat) : String :=
   let mr := millerRabin 2 n
   -- strong_lucas(2^64 - 1) does not terminate (n + 1 wraps to 0); the harness skips it too
   let lucas := if n = maxU then "skipped" else (strongLucas fuel.dSearch n).val.name
-  let lstuck := if n = maxU then false else (strongLucas fuel.dSearch n).stuck
+  let lstuck := if n = maxU then false else ((strongLucas fuel.dSearch n).stuck || (strongLucas fuel.dSearch n).wrapped)
   let fac := if n > 1 && withFactor then findPrimeFactor fuel table n else W.ok 0
-  let bad := ip.divz || ip.stuck || sq.divz || sq.stuck || mr.divz || mr.stuck || mr.wrapped ||
+  let bad := ip.divz || ip.stuck || ip.wrapped || sq.divz || sq.stuck || sq.wrapped || mr.divz || mr.stuck || mr.wrapped ||
              lstuck || fac.divz || fac.stuck
   s!"prime={b01 ip.val} sq={b01 sq.val} mr2={mr.val.name} lucas={lucas} factor={fac.val} modelbad={b01 bad}"
 
